@@ -2,6 +2,9 @@
    observations in exactly the harness's format.  No model logic lives here: only parsing,
    number conversion and printing. *)
 open Model
+(* Model (extracted Coq) defines its own inductive `string`; here and in every module that opens Mcommon after
+   Model, `string` is OCaml's *)
+type string = String.t
 
 let rec pos_of_int i = if i = 1 then XH else if i land 1 = 0 then XO (pos_of_int (i lsr 1)) else XI (pos_of_int (i lsr 1))
 let n_of_int i = if i = 0 then N0 else Npos (pos_of_int i)
